@@ -753,3 +753,160 @@ theorem child_complete (B : List H) {L N W : Nat} (hb : (N / 256 * 256 + W) * 25
   exact hA.symm
 
 end TileAuth
+
+namespace TileAuth
+open Merkle
+variable {H : Type} (node : H → H → H) (empty : H)
+
+/-! ### the executable reader establishes `Verified` -/
+
+theorem edgeFx_eq (e : Nat → List H) (L : Nat) : edgeFx node empty e L = edgeF node empty e L := by
+  induction L with
+  | zero => rfl
+  | succ L ih => simp only [edgeFx, edgeF, ih]
+
+theorem findTile_length {tiles : List (TileData H)} {L N W : Nat} {es : List H}
+    (h : findTile tiles L N W = some es) : es.length = W := by
+  unfold findTile at h
+  cases hf : tiles.find? (fun t => t.L == L && t.N == N && t.es.length == W) with
+  | none => rw [hf] at h; cases h
+  | some t =>
+    rw [hf] at h
+    simp only [Option.map_some, Option.some.injEq] at h
+    subst h
+    have := List.find?_some hf
+    simp only [Bool.and_eq_true, beq_iff_eq] at this
+    exact this.2
+
+theorem edgeAt_length {n : Nat} {tiles : List (TileData H)} {L : Nat} {es : List H}
+    (h : edgeAt n tiles L = some es) : es.length = edgeWidth n L := by
+  unfold edgeAt at h
+  split at h
+  · rename_i h0; injection h with h; subst h; simp [h0]
+  · exact findTile_length h
+
+theorem chainUp_verified [DecidableEq H] (n : Nat) (tiles : List (TileData H)) :
+    ∀ (fuel L N : Nat) (es : List H), (∀ j, (edgeAt n tiles j).isSome) →
+      chainUp node empty fuel n tiles L N = some es → Verified node empty n (edgesFn n tiles) L N es := by
+  intro fuel
+  induction fuel with
+  | zero => intro L N es _ h; simp [chainUp] at h
+  | succ fuel ih =>
+    intro L N es hall h
+    simp only [chainUp] at h
+    split at h
+    · rename_i hN
+      subst hN
+      have : edgesFn n tiles L = es := by unfold edgesFn; rw [h]; rfl
+      rw [← this]
+      exact Verified.edge L
+    · split at h
+      · rename_i es' pes hf hc
+        split at h
+        · rename_i hp
+          injection h with h; subst h
+          exact Verified.child L N es' pes (ih (L + 1) (N / 256) pes hall hc) (findTile_length hf) hp
+        · cases h
+      · cases h
+
+theorem numLevels_le (n : Nat) : numLevels n ≤ 9 := by
+  unfold numLevels
+  cases h : (List.range 9).find? (fun T => decide (n < 256 ^ T)) with
+  | none => simp
+  | some T =>
+    simp only [Option.getD_some]
+    have := List.mem_of_find?_eq_some h
+    simp at this; omega
+
+/-- **The executable reader is sound**: whatever tiles were served, a hash it returns for leaf `i` of a tree head
+    `(n, root)` is the record hash of leaf `i` of every leaf list that tree head commits to. -/
+theorem readLeafHash_sound [DecidableEq H] (inj : NodeInj node) (B : List H) (tiles : List (TileData H)) (i : Nat) (h : H)
+    (hr : readLeafHash node empty B.length (mth node empty B) tiles i = some h) : B[i]? = some h := by
+  unfold readLeafHash at hr
+  simp only at hr
+  split at hr
+  · cases hr
+  · rename_i hg
+    simp only [not_or, Decidable.not_not] at hg
+    obtain ⟨hn0, hi, hT⟩ := hg
+    split at hr
+    · cases hr
+    · rename_i hall
+      split at hr
+      · cases hr
+      · rename_i hroot
+        simp only [ne_eq, Decidable.not_not] at hroot
+        have hne : B ≠ [] := by intro hb; subst hb; simp at hn0
+        -- every level has its edge tile (levels at and above the top prescribe none)
+        have hallj : ∀ j, (edgeAt B.length tiles j).isSome := by
+          intro j
+          by_cases hj : j < numLevels B.length
+          · have h1 : ((List.range (numLevels B.length)).all fun L => (edgeAt B.length tiles L).isSome) = true := by
+              cases hb : ((List.range (numLevels B.length)).all fun L => (edgeAt B.length tiles L).isSome) with
+              | true => rfl
+              | false => rw [hb] at hall; simp at hall
+            exact List.all_eq_true.1 h1 j (List.mem_range.2 hj)
+          · have hpow : 256 ^ numLevels B.length ≤ 256 ^ j := Nat.pow_le_pow_right (by decide) (by omega)
+            have hW : edgeWidth B.length j = 0 := by
+              unfold edgeWidth; rw [Nat.div_eq_of_lt (by omega)]
+            unfold edgeAt; simp [hW]
+        have hw : ∀ j, (edgesFn B.length tiles j).length = edgeWidth B.length j := by
+          intro j
+          have := hallj j
+          cases he : edgeAt B.length tiles j with
+          | none => rw [he] at this; cases this
+          | some es => unfold edgesFn; rw [he]; exact edgeAt_length he
+        rw [edgeFx_eq] at hroot
+        cases hc : chainUp node empty (numLevels B.length + 1) B.length tiles 0 (i / 256) with
+        | none => rw [hc] at hr; cases hr
+        | some es =>
+          rw [hc] at hr
+          have hv := chainUp_verified node empty B.length tiles _ 0 (i / 256) es hallj hc
+          have := verified_leaf_hashes node empty inj B (edgesFn B.length tiles) (numLevels B.length) hne hT hw hroot hv
+            (i % 256) h hr
+          have hidx : i / 256 * 256 + i % 256 = i := by
+            have := Nat.div_add_mod i 256
+            rw [Nat.mul_comm] at this; exact this
+          rw [hidx] at this
+          exact this
+
+end TileAuth
+
+namespace TileAuth
+open Merkle
+variable {H : Type} (node : H → H → H) (empty : H)
+
+/-! ### the pinned reader versus the sound one (finding F10) -/
+
+theorem chainUpChk_all [DecidableEq H] (chk : Nat → Bool) (hall : ∀ L, chk L = true) :
+    ∀ (fuel n : Nat) (tiles : List (TileData H)) (L N : Nat),
+      chainUpChk node empty chk fuel n tiles L N = chainUp node empty fuel n tiles L N := by
+  intro fuel
+  induction fuel with
+  | zero => intros; rfl
+  | succ fuel ih =>
+    intro n tiles L N
+    simp only [chainUpChk, chainUp, ih, hall]
+    rfl
+
+/-- with every comparison performed, the parametrised reader IS the sound reader -/
+theorem readLeafHashWith_all [DecidableEq H] (chk : Nat → Bool) (hall : ∀ L, chk L = true)
+    (n : Nat) (root : H) (tiles : List (TileData H)) (i : Nat) :
+    readLeafHashWith node empty chk n root tiles i = readLeafHash node empty n root tiles i := by
+  unfold readLeafHashWith readLeafHash
+  simp only [chainUpChk_all node empty chk hall]
+
+/-- whenever the tree has no more peaks than non-empty edge tiles (no two peaks share a tile), the pinned reader skips
+    nothing and is sound -/
+theorem readLeafHashTlog_sound_of_no_skip [DecidableEq H] (inj : NodeInj node) (B : List H) (tiles : List (TileData H))
+    (i : Nat) (h : H) (hs : tlogSkipped B.length = 0)
+    (hr : readLeafHashTlog node empty B.length (mth node empty B) tiles i = some h) : B[i]? = some h := by
+  unfold readLeafHashTlog at hr
+  rw [readLeafHashWith_all node empty _ (by intro L; simp [hs])] at hr
+  exact readLeafHash_sound node empty inj B tiles i h hr
+
+/-- e.g. 257 = 256 + 1: two peaks, two edge tiles, nothing skipped; 259 = 256 + 2 + 1: three peaks, two edge tiles,
+    the level-0 tile of a one-tile chain is not compared with its parent -/
+example : tlogSkipped 257 = 0 ∧ tlogSkipped 259 = 1 ∧ tlogSkipped 300 = 2 ∧ chainLen 9 300 0 0 = 1 := by decide
+
+end TileAuth
